@@ -21,6 +21,7 @@ def run(ctx):
     lib_order.comparators(ctx, P)
     lib_order.sorter_keys(ctx, P)
     lib_order.bookmark_cursor(ctx, P)
+    lib_order.sorter_run(ctx, P)
     lib_order.memcpy_alias(ctx, P, funcs=sorter)
     lib_schema.argname(ctx, P, tus=("tables",), funcs=sorter)
     lib_schema.row_forwarding(ctx, P, tus=("tables",), funcs=sorter)
